@@ -5,6 +5,7 @@ import (
 	"encoding/json"
 	"errors"
 	"fmt"
+	"math"
 	"math/big"
 	"strconv"
 
@@ -609,8 +610,14 @@ func (sc *StorageSmartContract) commitBlobberRead(t *transaction.Transaction,
 			"error fetching blobber object: %v", err)
 	}
 
+	// the counter delta is multiplied by CHUNK_SIZE as int64: reject deltas that would wrap
+	if d := commitRead.ReadMarker.ReadCounter - lastKnownCtr; d < 0 || d > math.MaxInt64/CHUNK_SIZE {
+		return "", common.NewError("commit_blobber_read",
+			"read counter delta out of range")
+	}
+
 	var (
-		numReads = commitRead.ReadMarker.ReadCounter - lastKnownCtr // todo check if it can be negative
+		numReads = commitRead.ReadMarker.ReadCounter - lastKnownCtr
 		sizeRead = sizeInGB(numReads * CHUNK_SIZE)
 		value    = currency.Coin(float64(details.Terms.ReadPrice) * sizeRead)
 	)
